@@ -1,6 +1,7 @@
 (* C04 — cancellation and deadlines end calls with the right code and reach the handler. *)
 From Coq Require Import ZArith List Bool.
 From Grpchan Require Import model.InprocUnary proofs.C04.
+From Grpchan Require model.HttpUnary proofs.HttpUnary.
 From Grpchan Require model.InprocStream.
 Import ListNotations.
 Open Scope Z_scope.
@@ -52,3 +53,32 @@ Theorem C04_handler_ctx_error : forall s, InprocStream.err_code_of_return s (-2)
 Proof. exact handler_ctx_error_code. Qed.
 Theorem C04_codes : InprocStream.ctx_status 1 = 1 /\ InprocStream.ctx_status 2 = 4.
 Proof. exact ctx_status_codes. Qed.
+
+(* the tail of the unary HTTP call as a concurrent system (model/HttpUnary.v: the goroutine that reads the reply
+   body, the caller reaching its select, the context ending at any moment, reads failing with the context's
+   error or on their own), every interleaving: the caller is never handed the bare context error, and a
+   status it gets for the context says how the context ended *)
+Theorem C04_http_unary_never_the_bare_context_error : forall s k,
+  Grpchan.model.HttpUnary.reachable true s ->
+  Grpchan.model.HttpUnary.result s <> Some (Grpchan.model.HttpUnary.ORawCtx k).
+Proof. exact Grpchan.proofs.HttpUnary.never_the_bare_context_error. Qed.
+Print Assumptions C04_http_unary_never_the_bare_context_error.
+
+Theorem C04_http_unary_context_status : forall s c,
+  Grpchan.model.HttpUnary.reachable true s ->
+  Grpchan.model.HttpUnary.result s = Some (Grpchan.model.HttpUnary.OStatus c) ->
+  Grpchan.model.HttpUnary.ctx s <> 0%Z /\ c = Grpchan.model.HttpUnary.ctx_status (Grpchan.model.HttpUnary.ctx s).
+Proof. exact Grpchan.proofs.HttpUnary.context_status_is_the_contexts. Qed.
+Print Assumptions C04_http_unary_context_status.
+
+(* the code as it was before the repair of F29: the read arm of the select wins against the ended context *)
+Theorem C04_http_unary_unrepaired_refuted : exists s,
+  Grpchan.model.HttpUnary.reachable false s /\
+  Grpchan.model.HttpUnary.result s = Some (Grpchan.model.HttpUnary.ORawCtx 1%Z).
+Proof. exact Grpchan.proofs.HttpUnary.unrepaired_returns_the_bare_context_error. Qed.
+
+(* what the correspondence check evaluates on observed outcomes never admits the bare context error *)
+Theorem C04_http_unary_acceptance_excludes_raw : forall k,
+  Grpchan.model.HttpUnary.possible true (Grpchan.model.HttpUnary.ORawCtx k) = false.
+Proof. exact Grpchan.proofs.HttpUnary.possible_excludes_raw. Qed.
+Print Assumptions C04_http_unary_acceptance_excludes_raw.
